@@ -272,3 +272,15 @@ RULES = [
     ("C18.R5", "T8", "LAN: the time written is the clock recorded when the request was sent", r5),
     ("C18.R6", "T2", "a time-sync step is completed only by the matching reply of the addressed outstation (shared with C15.R1)", r6),
 ]
+
+
+def r7(ctx):
+    """'the time handed to the outstation application': the LAN procedure writes the clock recorded at the RECORD_CURRENT_TIME of THE
+    master that is being served - fragments (broadcasts included) from any other link address are discarded before they reach the
+    session when a master address is required (C07.R5, shared code); a foreign broadcast RECORD_CURRENT_TIME between the two steps
+    would otherwise overwrite the recorded time."""
+    import c07
+    c07.r5(ctx)
+
+
+RULES.append(("C18.R7", "T2", "requests from a foreign master cannot disturb the recorded time: the source filter covers every request kind (shared with C07.R5)", r7))
